@@ -3,6 +3,7 @@ package gen
 import (
 	"fmt"
 	"math"
+	"sort"
 
 	"pgregory.net/rapid"
 )
@@ -342,8 +343,14 @@ func cloneLabels(l ULabels) ULabels {
 
 func flipLabel(t *rapid.T, src ULabels) ULabels {
 	l := cloneLabels(src)
-	k := rapid.IntRange(0, 4).Draw(t, "labattr")
+	k := rapid.IntRange(0, 5).Draw(t, "labattr")
 	switch {
+	case k == 5 && len(l.Labels) > 1:
+		// re-bracketing: same flattened (key, values...) token sequence, different grouping
+		sort.Slice(l.Labels, func(i, j int) bool { return l.Labels[i].Key < l.Labels[j].Key })
+		a, b := l.Labels[0], l.Labels[1]
+		a.Vals = append(append(append([]string{}, a.Vals...), b.Key), b.Vals...)
+		l.Labels = append([]StrLabel{a}, l.Labels[2:]...)
 	case k == 0 && len(l.Labels) > 0:
 		l.Labels[0].Vals = append(l.Labels[0].Vals, l.Labels[0].Vals[0]) // multiplicity
 	case k == 1 && len(l.Labels) > 0 && len(l.Labels[0].Vals) > 1:
